@@ -259,6 +259,7 @@ func (b *Builder) ingestFiles(sstFilePaths []string) error {
 func (b *Builder) Execute() error {
 	b.sortDataset()
 	b.createBuckets(minBucketSize, runtime.NumCPU())
+	verifRebucket(b)
 
 	sstFilePaths, err := b.saveBuckets()
 	if err != nil {
